@@ -350,3 +350,12 @@ Proof. vm_compute. reflexivity. Qed.
 Example parse_page_header_truncated :
   parse_page_header [0x15; 0x00; 0x15; 0xc8] = Err ST_TRUNCATED.
 Proof. vm_compute. reflexivity. Qed.
+
+Theorem parse_never_faults_both : forall bs f,
+  parse_file_metadata bs <> Fault f /\ parse_page_header bs <> Fault f.
+Proof. intros bs f. split; [apply parse_file_metadata_never_faults | apply parse_page_header_never_faults]. Qed.
+
+Theorem parse_consumed_both : forall bs r c,
+  (parse_file_metadata bs = Ok (r, c) -> c <= N.of_nat (length bs)) /\
+  (parse_page_header bs = Ok (r, c) -> c <= N.of_nat (length bs)).
+Proof. intros bs r c. split; [apply parse_file_metadata_consumed | apply parse_page_header_consumed]. Qed.
